@@ -2,6 +2,7 @@ package main
 
 import (
 	"fmt"
+	"strconv"
 	"go/types"
 	"strings"
 
@@ -32,6 +33,7 @@ type deferred struct {
 type State struct {
 	vals    map[ssa.Value]SVal
 	heaps   map[string]string // heap name -> current SMT term
+	heapAlloc map[string]string // heap name -> allocation counter when the current version was created
 	alloc   string
 	pc      []string
 	defers  []deferred
@@ -46,6 +48,7 @@ func (s *State) clone() *State {
 	n := &State{
 		vals:   make(map[ssa.Value]SVal, len(s.vals)+8),
 		heaps:  make(map[string]string, len(s.heaps)+4),
+		heapAlloc: make(map[string]string, len(s.heapAlloc)+4),
 		alloc:  s.alloc,
 		pc:     append([]string(nil), s.pc...),
 		defers: append([]deferred(nil), s.defers...),
@@ -58,6 +61,9 @@ func (s *State) clone() *State {
 	}
 	for k, v := range s.heaps {
 		n.heaps[k] = v
+	}
+	for k, v := range s.heapAlloc {
+		n.heapAlloc[k] = v
 	}
 	for k, v := range s.inLoop {
 		n.inLoop[k] = v
@@ -176,12 +182,22 @@ func (ex *Exec) setHeap(st *State, name, term string) {
 	c := ex.fresh(name, sortName)
 	st.assume("(= " + c + " " + term + ")")
 	st.heaps[name] = c
+	st.heapAlloc[name] = st.alloc
+}
+
+// heapBound: every reference stored in the current version of the heap is below this counter.
+func (ex *Exec) heapBound(st *State, name string) string {
+	if a, ok := st.heapAlloc[name]; ok {
+		return a
+	}
+	return ex.entry.alloc
 }
 
 func (ex *Exec) havocHeap(st *State, name string) string {
 	ex.heapTerm(st, name) // make sure the entry version exists
 	c := ex.fresh(name, ex.w.heapSorts[name])
 	st.heaps[name] = c
+	st.heapAlloc[name] = st.alloc
 	return c
 }
 
@@ -216,15 +232,98 @@ func not(x string) string        { return "(not " + x + ")" }
 func implies(a, b string) string { return "(=> " + a + " " + b + ")" }
 func eq(a, b string) string      { return "(= " + a + " " + b + ")" }
 func ite(c, a, b string) string  { return "(ite " + c + " " + a + " " + b + ")" }
-func add(a, b string) string     { return "(+ " + a + " " + b + ")" }
-func sub(a, b string) string     { return "(- " + a + " " + b + ")" }
+func isLit(a string) bool {
+	if a == "" {
+		return false
+	}
+	for _, r := range a {
+		if r < '0' || r > '9' {
+			return false
+		}
+	}
+	return len(a) < 18
+}
+func add(a, b string) string {
+	if a == "0" {
+		return b
+	}
+	if b == "0" {
+		return a
+	}
+	if isLit(a) && isLit(b) {
+		x, _ := strconv.ParseInt(a, 10, 64)
+		y, _ := strconv.ParseInt(b, 10, 64)
+		return strconv.FormatInt(x+y, 10)
+	}
+	return "(+ " + a + " " + b + ")"
+}
+func sub(a, b string) string {
+	if b == "0" {
+		return a
+	}
+	if isLit(a) && isLit(b) {
+		x, _ := strconv.ParseInt(a, 10, 64)
+		y, _ := strconv.ParseInt(b, 10, 64)
+		if x >= y {
+			return strconv.FormatInt(x-y, 10)
+		}
+	}
+	return "(- " + a + " " + b + ")"
+}
 func le(a, b string) string      { return "(<= " + a + " " + b + ")" }
 func lt(a, b string) string      { return "(< " + a + " " + b + ")" }
 
-func sArr(s string) string { return "(s_arr " + s + ")" }
-func sOff(s string) string { return "(s_off " + s + ")" }
-func sLen(s string) string { return "(s_len " + s + ")" }
-func sCap(s string) string { return "(s_cap " + s + ")" }
+// slice selectors, simplified on literal (mkslice a o l c) terms
+func mkParts(s string) []string {
+	if !strings.HasPrefix(s, "(mkslice ") {
+		return nil
+	}
+	body := s[len("(mkslice ") : len(s)-1]
+	var parts []string
+	depth, start := 0, 0
+	for i := 0; i < len(body); i++ {
+		switch body[i] {
+		case '(':
+			depth++
+		case ')':
+			depth--
+		case ' ':
+			if depth == 0 {
+				parts = append(parts, body[start:i])
+				start = i + 1
+			}
+		}
+	}
+	parts = append(parts, body[start:])
+	if len(parts) != 4 {
+		return nil
+	}
+	return parts
+}
+func sArr(s string) string {
+	if p := mkParts(s); p != nil {
+		return p[0]
+	}
+	return "(s_arr " + s + ")"
+}
+func sOff(s string) string {
+	if p := mkParts(s); p != nil {
+		return p[1]
+	}
+	return "(s_off " + s + ")"
+}
+func sLen(s string) string {
+	if p := mkParts(s); p != nil {
+		return p[2]
+	}
+	return "(s_len " + s + ")"
+}
+func sCap(s string) string {
+	if p := mkParts(s); p != nil {
+		return p[3]
+	}
+	return "(s_cap " + s + ")"
+}
 func mkSlice(a, o, l, c string) string {
 	return "(mkslice " + a + " " + o + " " + l + " " + c + ")"
 }
@@ -265,7 +364,51 @@ func (ex *Exec) newRef(st *State, hint string) string {
 	st.alloc = na
 	mine := ex.w.ghostHeap("G_mine")
 	ex.setHeap(st, mine, sto(ex.heapTerm(st, mine), r, "true"))
+	st.assume("(not (RO " + r + "))")
+	st.assume(not(sel(ex.heapTerm(st, ex.w.ghostHeap("G_esc")), r)))
 	return r
+}
+
+// wfRefs: well-formedness of the references inside a value of Go type t (below bound, typed).
+func (ex *Exec) wfRefs(t types.Type, term string, bound string) string {
+	switch u := t.Underlying().(type) {
+	case *types.Pointer, *types.Map, *types.Signature, *types.Chan:
+		return and(le("0", term), lt(term, bound),
+			or(eq(term, "0"), eq("(rtype "+term+")", fmt.Sprint(ex.w.typeID(refTypeKey(t))))))
+	case *types.Slice:
+		return and(ex.refsBelow("Slice", term, bound),
+			or(eq(sArr(term), "0"), eq("(rtype "+sArr(term)+")", fmt.Sprint(ex.w.typeID("[]"+ex.w.sortOf(u.Elem()))))))
+	case *types.Interface:
+		return ex.refsBelow("Val", term, bound)
+	}
+	return "true"
+}
+
+// refTypeKey: the allocation class of what a reference of Go type t points to.
+func refTypeKey(t types.Type) string {
+	switch u := t.Underlying().(type) {
+	case *types.Pointer:
+		if a, ok := u.Elem().Underlying().(*types.Array); ok {
+			return "[]" + a.Elem().String()
+		}
+		return "*" + typeKey(u.Elem())
+	case *types.Map:
+		return "map"
+	case *types.Signature:
+		return "func"
+	}
+	return typeKey(t)
+}
+
+var typeIDs = map[string]int{}
+
+func (w *World) typeID(k string) int {
+	if id, ok := typeIDs[k]; ok {
+		return id
+	}
+	id := len(typeIDs) + 1
+	typeIDs[k] = id
+	return id
 }
 
 // embRef is the reference of a struct embedded by value at field idx of struct type st.
@@ -355,13 +498,14 @@ func (ex *Exec) refsBelow(sortName, term, alloc string) string {
 
 // assumeWF adds the well-formedness facts about a freshly read value of Go type t.
 func (ex *Exec) assumeWF(st *State, t types.Type, term string) {
+	ex.assumeWFBelow(st, t, term, st.alloc)
+}
+
+func (ex *Exec) assumeWFBelow(st *State, t types.Type, term string, bound string) {
+	if f := ex.wfRefs(t, term, bound); f != "true" {
+		st.assume(f)
+	}
 	switch u := t.Underlying().(type) {
-	case *types.Pointer, *types.Map, *types.Signature, *types.Chan:
-		st.assume(and(le("0", term), lt(term, st.alloc)))
-	case *types.Slice:
-		st.assume(ex.refsBelow("Slice", term, st.alloc))
-	case *types.Interface:
-		st.assume(ex.refsBelow("Val", term, st.alloc))
 	case *types.Basic:
 		switch u.Kind() {
 		case types.Int, types.Int64:
